@@ -54,6 +54,11 @@ def future_method(engine, st, fr, selfv, name, args, kwargs, node):
     oid = Val.id(selfv.t)
     engine.touch_future(st, oid)
     s = st.fstate(oid)
+    cname0 = engine.class_of_value(st, selfv)
+    if cname0 is not None and engine.repo.is_subclass(cname0, "_Future") and name != "__init__":
+        # invariant of library futures: never RUNNING (static FR: set_running_or_notify_cancel is only
+        # called right after a successful cancel, under the future's lock)
+        st.assume(s != RUNNING)
     if name == "__init__":
         st.put("$fstate", oid, z3.IntVal(PENDING))
         st.put("$fresult", oid, NONE)
